@@ -238,7 +238,7 @@ func (eng *Engine) VerifyFunction(fn *ssa.Function, con *Contract) (fx *FuncExec
 					if cs.name != "" {
 						nm += "|case" + cs.name
 					}
-					sub := &Obligation{Name: shortFuncName(fn) + "/post:" + nm, Kind: "post", Func: shortFuncName(fn), Label: nm,
+					sub := &Obligation{Name: fx.eng.topName(fn) + "/post:" + nm, Kind: "post", Func: fx.eng.topName(fn), Label: nm,
 						Goal: g, NFacts: len(fx.facts), fx: fx, Src: c.Expr, Props: con.Props}
 					if g.isTrue() {
 						sub.Status, sub.Solver = "proved", "simplifier"
